@@ -150,6 +150,62 @@ theorem factory_shape :
        "http2: TargetResolved=phttp.PreResolveTargetAddr(&conf.Client,conf.Target)#0",
        "http: TargetResolved=phttp.PreResolveTargetAddr(&conf.Client,conf.Target)#0"] := rfl
 
+/-! ### round 2: the whole transport wiring -/
+
+/-- NewTransport: every field of the http.Transport is the TransportConfig field of the same name — in particular the
+idle timeout of the connection pool is `idle-conn-timeout` and nothing else -/
+theorem newTransport_eq (c : TransportCfg) : Gen.HttpWire.newTransport c = newTransport c := rfl
+
+/-- DefaultTransportConfig: keep-alives on, no idle limits, idle connections live 90s, no response-header timeout -/
+theorem defaultTransportCfg_eq : Gen.HttpWire.defaultTransportCfg = defaultTransportCfg := by decide
+
+/-- the documented option names select the fields the model's `setTransportOpt` selects -/
+theorem transportTags_eq : Gen.HttpWire.transportTags = transportTags := by decide
+
+/-- nothing else of the transport is configured except the dialer and the TLS client config; the options stand at the
+top level of the gun's config; every client constructor (http, http2, connect) hands the gun's OWN TransportConfig to
+NewTransport; the defaults come from DefaultTransportConfig; redirects are off by default -/
+theorem transport_wiring_shape :
+    Gen.HttpWire.transportOtherFields = [] ∧
+    Gen.HttpWire.transportLaterAssigns = ["DialContext=param1", "TLSClientConfig=&composite:tls.Config"] ∧
+    Gen.HttpWire.defaultTransportOtherFields = [] ∧
+    Gen.HttpWire.transportEmbedding = "Transport:,squash in Client:,squash" ∧
+    Gen.HttpWire.clientTransports =
+      ["HTTP1ClientConstructor: NewTransport(param0.Transport,NewDialer(param0.Dialer).DialContext,param1)",
+       "HTTP2ClientConstructor: NewHTTP2Transport(param0.Transport,NewDialer(param0.Dialer).DialContext,param1)",
+       "newConnectClientVia: NewTransport(param0.Transport,newConnectDialFunc(param2,param0.ConnectSSL,NewDialer(param0.Dialer)),param1)",
+       "NewHTTP2Transport: NewTransport(param0,param1,param2)"] ∧
+    Gen.HttpWire.defaultClientTransport = "DefaultTransportConfig()" ∧
+    Gen.HttpWire.defaultClientRedirect = "lit:false" :=
+  ⟨rfl, rfl, rfl, rfl, rfl, rfl, rfl⟩
+
+/-- BaseGun.Shoot after Client.Do (outside the option-guarded blocks): return on error, note the status, read the body to
+its end into ioutil.Discard, close it on return — so the connection can go back to the pool whatever the status and
+however large the body; nothing else looks at the response -/
+theorem shootResponse_shape :
+    Gen.HttpWire.shootResponse =
+      ["_,err=io.Copy(ioutil.Discard,res.Body)", "defer res.Body.Close()", "if-err-return", "if-err-return",
+       "local.SetProtoCode(res.StatusCode)"] := rfl
+
+/-- the gun's Client hands the request to the transport as it is, exactly once: `noRedirectClient.Do` is one RoundTrip (no
+retry: a request whose answer is lost does not arrive twice), redirects are followed only when `redirect` is set, the
+http2 wrapper calls the wrapped client once -/
+theorem clientDo_shape :
+    Gen.HttpWire.clientDo =
+      ["noRedirectClient.Do: return recv.Transport.RoundTrip(param0)",
+       "NewRedirectingClient: if(param1){return composite:redirectClient(&composite:http.Client)} ; return composite:noRedirectClient(param0)",
+       "panicOnHTTP1Client.Do: 1 inner Do calls; first: local,local:=recv.Client.Do(param0)"] := rfl
+
+/-- connect gun: tunnels are opened at `TargetResolved` (defaulting to `Target`), by a TCP dial to that address followed by
+`CONNECT <the address the transport asks for>` — the model's `connectTunnel` -/
+theorem connect_shape :
+    Gen.HttpWire.connectShape =
+      ["NewConnectGun: if(==(param0.TargetResolved,lit:\"\")){param0.TargetResolved=param0.Target}",
+       "NewConnectGun client: newConnectClientVia(lit0,lit1,param0.TargetResolved)",
+       "NewConnectGun: return NewBaseGun(func,param0,param1)",
+       "tunnel dial: param2.DialContext(lit0,lit:\"tcp\",param0)",
+       "tunnel request: Method=lit:\"CONNECT\" Host=lit2"] := rfl
+
 theorem http2NeedsSSL_eq (ssl : Bool) : constructible .http2 ssl = (!Gen.HttpWire.http2NeedsSSL || ssl) := by
   cases ssl <;> rfl
 
